@@ -27,7 +27,25 @@ per_round = [len([m for m in metas if m.get('round', 1) == r]) for r in rounds]
 words = {1: 'one round', 2: 'two rounds', 3: 'three rounds', 4: 'four rounds'}
 n_out = len([m for m in metas if m.get('outside_statement')])
 seedsummary = f"{n_all} seeded changes in {words.get(len(rounds), str(len(rounds)) + ' rounds')} ({' + '.join(str(x) for x in per_round)}): {n_all - n_str} were reported by the checks as they stood when the change arrived, {n_str} were not and led to strengthened checks; all are reported now (last column)" + (f", except {n_out} whose effect lies at a boundary the statement leaves open (C12 round 3: a stall that ends with the next completion when exactly max_receive_size bytes are in flight) and is deliberately not demanded." if n_out else ".")
-tail = rd('05_tail.md').replace('@@TABLE@@', table).replace('@@FIXES@@', fixes).replace('@@FIXED@@', fixed).replace('@@KNOWN@@', known).replace('@@SEEDS@@', seeds).replace('@@SEEDSUMMARY@@', seedsummary.replace(' (last column)', ''))
+# mutation sweep numbers (sweep/results.jsonl is a copy of the scratch results, committed with the scripts)
+sw_total, sw_summary = '?', '(no results stored).'
+try:
+    import collections
+    muts = json.load(open(os.path.join(R, 'sweep', 'mutants.json')))
+    rs = {}
+    for l in open(os.path.join(R, 'sweep', 'results.jsonl')):
+        r = json.loads(l); rs[(r['file'], r['line'], r['kind'], r['new'])] = r
+    cnt = collections.Counter(r['status'] for r in rs.values())
+    by = collections.Counter(r.get('by') for r in rs.values() if r['status'] == 'killed')
+    sw_total = str(len(muts))
+    ran = cnt['killed'] + cnt['survived'] + cnt.get('machinery', 0)
+    sw_summary = (f"{len(rs)} mutants were tried, {cnt.get('nocompile', 0)} did not compile, {cnt['killed']} of the remaining {ran} were reported "
+                  f"({', '.join(f'{k} {v}' for k, v in sorted(by.items()))}), {cnt['survived']} survived the related quick checks"
+                  + (f", {cnt['machinery']} ended as a machinery exit (time-out of a check that looped inside one poll, before the watchdog existed)." if cnt.get('machinery') else "."))
+except Exception as e:
+    pass
+tail = rd('05_tail.md').replace('@@SWEEPTOTAL@@', sw_total).replace('@@SWEEPSUMMARY@@', sw_summary)
+tail = tail.replace('@@TABLE@@', table).replace('@@FIXES@@', fixes).replace('@@FIXED@@', fixed).replace('@@KNOWN@@', known).replace('@@SEEDS@@', seeds).replace('@@SEEDSUMMARY@@', seedsummary.replace(' (last column)', ''))
 nfix = len([l for l in log if l.split(' ',1)[1].startswith('fix:')])
 nfixed = len([f for f in k if f['status'] == 'fixed'])
 head = rd('00_head.md').replace('@@NFIX@@', str(nfix)).replace('@@NFIXED@@', str(nfixed)).replace('@@SEEDSUMMARY@@', seedsummary.replace(' (last column)', ''))
